@@ -43,6 +43,7 @@ def run(repo, chk):
     rule_run(chk, r)
     rule_stop(chk, s)
     rule_clauses(chk, d, t)
+    rule_idle(repo, chk, d)
 
 
 def _ticks(n):
@@ -187,3 +188,31 @@ def rule_clauses(chk, d, t):
                 q = pat.guarded_by(g, sn, pat.test_edge(lambda tt, pol: pol == 'T' and src(tt) in ('self.running', 'self._running')), start=h)
                 chk.ob('e', f.ref, 'stop(e.code) is used only while running (where it raises the code itself)', q is None, loc(f, sn.ast),
                        discr='se-stop-while-running')
+
+
+def rule_idle(repo, chk, d):
+    """After stop() the loop must not go to sleep: a generate_events event is only fired while the manager is (still) running, judged
+    after the tasks of this iteration were stepped, and one that is dispatched on a stopped manager gets a zero idle budget."""
+    chk.rule('C08.g', 'tick() fires generate_events only if the manager is running *after* its tasks were stepped; the dispatcher disarms the idle wait '
+                      'of a generate_events event on a manager that is not running')
+    t = repo.func(MANAGER, 'Manager.tick')
+    chk.touch(t)
+    g = t.cfg()
+    ge = [n for n in g.nodes if n.kind == 'stmt' and pat.fires(n.ast, 'generate_events')]
+    need(ge, 'C08.g: tick() never fires generate_events')
+    steps = [n for n in g.nodes if n.kind == 'stmt' and any(r == 'self' for r, _c in pat.method_calls(n.ast, 'processTask'))]
+    run_tests = [n for n in g.nodes if n.kind == 'test' and src(n.ast) in ('self._running', 'self.running')]
+    for n in ge:
+        q = pat.guarded_by(g, n, lambda e: e.src in run_tests and e.kind == 'T')
+        chk.ob('g', t.ref, 'generate_events is fired only while the manager is running (the flag itself is tested, not a copy taken earlier)', q is None, loc(t, n.ast),
+               path=pat.path_lines(q) if q else None, discr='ge-only-running')
+        late = all(not Q.reaches(rt, s_) for rt in run_tests for s_ in steps)
+        chk.ob('g', t.ref, 'the running test comes after the tasks of the iteration were stepped (a task may have called stop())', late and bool(run_tests), loc(t, n.ast),
+               discr='running-tested-after-tasks')
+    gd = d.cfg()
+    ev, rem = d.params[1], d.params[3]
+    red0 = [n for n in gd.nodes if n.kind == 'stmt' and any(r == ev and len(c.args) == 1 and pat.is_const(c.args[0], 0) for r, c in pat.method_calls(n.ast, 'reduce_time_left'))]
+    edges = [e for n in gd.nodes if n.kind == 'test' and src(n.ast) in ('self._running', 'self.running') for e in n.succ if e.kind == 'F']
+    ok = bool(edges) and bool(red0) and all(e.dst in red0 or Q.escapes(gd, [e.dst], lambda n: n in red0) is None for e in edges)
+    chk.ob('g', d.ref, 'a generate_events event dispatched while the manager is not running gets its idle budget reduced to 0 (run() can return)', ok,
+           loc(d, d.node), discr='stopped-never-sleeps')
